@@ -107,7 +107,10 @@ func TestVerifPolicy(t *testing.T) {
 	h := hasher.NewHasher[int](nil)
 	for c := 0; c < ncases; c++ {
 		var size uint
-		switch r.intn(10) {
+		switch r.intn(11) {
+		case 10:
+			// byte-sized costs: capacities beyond 2^24, where float32 cannot represent every integer
+			size = uint(1<<24) + uint(r.next()%(1<<uint(25+r.intn(12))))
 		case 0:
 			size = uint(1 + r.intn(3))
 		case 1, 2:
